@@ -52,7 +52,7 @@ def run_property(pid, tier, seed, only_bounded=None, write=True, quiet=False):
     if spec.get('pyvc'):
         from pyvc import driver
         try:
-            res = driver.verify_modules(spec['pyvc'], tier=tier, prop=pid)
+            res = driver.verify_groups(spec['pyvc'], tier=tier, prop=pid)
             obligations = res['obligations']
             functions = res['functions']
             assumptions += res.get('assumptions', [])
@@ -113,7 +113,13 @@ def run_property(pid, tier, seed, only_bounded=None, write=True, quiet=False):
                       model=o.get('model'), discharged_on_reference_tree=o['name'] in lock,
                       source_sha1_reference=locked_sha, source_sha1_now=cur_sha, native=o.get('native'))
         rep = o.get('replay')   # a concrete input that was re-executed on the real code and breaks the clause
-        if rep is not None:
+        if tierc == 'F' and o['status'] == 'unknown' and o.get('source_sha1'):
+            # a syntactic obligation whose sufficient condition no longer applies (effect unknown): no verdict of this tier
+            if lock.get(o['name']) and lock[o['name']] != o['source_sha1']:
+                not_reestablished.append('%s: %s — changed since the reference tree; decided by the bounded tier only' % (o['name'], o.get('clause_text')))
+            else:
+                undecided.append('%s: %s' % (o['name'], o.get('clause_text')))
+        elif rep is not None:
             violations.append(Violation(pid, tierc, o['name'], o.get('clause') or o.get('kind', 'obligation'), rep, detail))
         elif tierc == 'F' and o['status'] in ('violated', 'sat'):
             v = Violation(pid, tierc, o['name'], o.get('clause') or o.get('kind', 'obligation'), o.get('witness'), detail,
@@ -272,10 +278,15 @@ def do_lock(only=None):
         if not spec.get('pyvc') and not spec.get('finite'):
             continue
         from pyvc import driver
-        res = driver.verify_modules(spec['pyvc'], tier='thorough', prop=pid) if spec.get('pyvc') else dict(obligations=[], functions=[])
+        res = driver.verify_groups(spec['pyvc'], tier='thorough', prop=pid) if spec.get('pyvc') else dict(obligations=[], functions=[])
         sha = dict((f['function'], f.get('source_sha1')) for f in res['functions'])
         lock[pid] = dict((o['name'], sha.get(o['function'])) for o in res['obligations'] if o['status'] == 'discharged')
         lock[pid]['__loops__'] = dict((f['function'], f.get('loop_headers', [])) for f in res['functions'] if f.get('loop_headers'))
+        for name in spec.get('finite', []):
+            modname, fn = name.rsplit(':', 1)
+            for o in getattr(importlib.import_module(modname), fn)('thorough'):
+                if o['status'] == 'discharged' and o.get('source_sha1'):
+                    lock[pid][o['name']] = o['source_sha1']
         bad = [o['name'] for o in res['obligations'] if o['status'] != 'discharged']
         print(pid, len(lock[pid]) - 1, 'obligations locked;', 'NOT discharged: %s' % bad if bad else 'all discharged')
     with open(LOCK, 'w') as f:
